@@ -3602,8 +3602,9 @@ impl<'s> Semantics<'s> {
                     Expr::cmpneq(rhs.clone(), expr_const(0, rhs.bits()))?,
                 )?,
             )?;
-            // This shifts lhs right by (rhs - 1)
-            let cf = Expr::shr(lhs, Expr::sub(rhs.clone(), expr_const(1, rhs.bits()))?)?;
+            // This shifts lhs right by (rhs - 1); arithmetically, so that a count
+            // beyond the width of an 8/16-bit operand yields the sign bit
+            let cf = Expr::ashr(lhs, Expr::sub(rhs.clone(), expr_const(1, rhs.bits()))?)?;
             // Apply mask
             let cf = Expr::trun(1, Expr::and(cf, non_zero_mask)?)?;
             self.assign_flag_if(block, "CF", &affected, cf)?;
